@@ -70,8 +70,17 @@ func checkProperty(prog *Program, prop, tier string, seed, timeoutS int, loadS f
 		for _, n := range fr.Notes {
 			assumptions[n] = true
 		}
-		for _, e := range fr.Errs {
-			viols = append(viols, violation{obl: k + "#contract-binding", reason: e})
+		if len(fr.Errs) > 0 {
+			// one violation per function: the contract no longer binds to the code (all reasons in the replay file)
+			seen := map[string]bool{}
+			var rs []string
+			for _, e := range fr.Errs {
+				if !seen[e] {
+					seen[e] = true
+					rs = append(rs, e)
+				}
+			}
+			viols = append(viols, violation{obl: k + "#contract-binding", reason: strings.Join(rs, "; ")})
 		}
 	}
 	// lemmas of this property
